@@ -11,6 +11,15 @@ CLAIMED = {
  "C05": ("proof", "A1 decision-table extraction over MIR + table composition",
          "Every row of the extracted Message->Frame table (all variants x 13 states x 6 operations) is pushed through the extracted Frame->Message table for every data-length class; the result must be the original message term; wire keys are pairwise distinct.",
          TB + "Claimed modulo C01 for the frame<->bytes leg.", "DESIGN.md 4 C05"),
+ "C09": ("proof", "A8 automaton extraction + A3 term-shape rules on the transfer routine",
+         "On the extracted automata of configure and send_pages: data follows the request only on the own-address ack; each SendData term is Offset(trunc16(i*16)) + Data(chunk) with (i, chunk) from the same item.chunks(16).enumerate(), items taken from the caller's iterator; the counter variable is 0 after the ack, +1 per accepted chunk, and is what DataChunksSent announces; the result query follows; configure sends once(self.sign_type.to_bytes()), send_pages maps pages to as_bytes.",
+         TB + "std contracts of chunks/enumerate/Clone of the item iterator. Exact within the property's 16-bit bound.", "DESIGN.md 4 C09"),
+ "C10": ("model_checking", "A8 protocol-automaton extraction from MIR + bisimulation against the documented protocol over a 48-value abstract reply alphabet",
+         "The automaton of each of Sign's six public operations is extracted from MIR (nodes = bus-call sites x call stack x attempt counter; replies are fresh symbols; edges carry the code's own tests, joined to a fixpoint) and compared by bisimulation with the documented protocol (DESIGN.md Appendix C): same message at every step, same successor or outcome for every abstract reply (bus error, none, 13 states x own/foreign, 6 acks x own/foreign, 8 other kinds).",
+         TB + "The reference protocol is a frozen reading of the doc comments in src/sign.rs; the reply alphabet abstracts addresses to own/foreign, sound because addresses are only compared for equality with self.address.", "DESIGN.md 4 C10"),
+ "C11": ("proof", "invariant checks on the extracted controller automaton (A8), reference-free",
+         "Per node of the extracted automata: every addressed message carries self.address; each foreign-address reply has the same successors as an unrecognised reply; a bus error leads only to Err(Bus); configure/send_pages continue past a transfer only on ReportState(own, received) and retry only on ReportState(own, failed); no cycle through a transfer request and at most three on any path; success unreachable once the success edges are removed.",
+         TB, "DESIGN.md 4 C11"),
  "C12": ("proof", "A4 panic-site inventory over enumerated MIR paths with discharge rules D1-D6",
          "Every path of VirtualSign::process_message (all handlers and the core functions they reach, inlined) and of the bus loop is enumerated over fully symbolic sign state and message at both logging extremes, plus every hand-written fmt impl reachable through formatting arguments. Each panic-capable construct on a path (Assert terminators, unwrap/expect, range indexing, integer sum, explicit panics, unknown externals) must be discharged by path constraints, interval analysis over type ranges, the Page invariant (C07) or a bounded-sum rule; anything else is a finding.",
          TB + "Page invariant len(bytes)=total_bytes(w,h)>=16 (C07 + A5) and lemma L3; allocation failure out of scope; derive-generated fmt impls trusted.", "DESIGN.md 4 C12, 3 A4"),
